@@ -55,7 +55,7 @@ def run(ctx):
     from ..model.grids import set_wide_longitudes
     set_wide_longitudes(True)      # also datasets in the 0..360 convention / straddling 180 degrees
     contracts.attach_all(obs, only={'make_polygons_with_holes'})
-    total = ctx.n(1200, 25000)
+    total = ctx.n(1200, 150000)
     for case, rng in ctx.cases(total):
         conv = CONVENTIONS[case % len(CONVENTIONS)]
         kw = {}
